@@ -1,9 +1,9 @@
 SPECIFICATION Spec
 CONSTANTS
   Routers = {"P", "L"}
-  Ops = {"Authorize", "Login", "Callback", "CodeExchange"}
+  Ops = {"Authorize", "Login", "Callback", "CodeExchange", "EndSession"}
   MaxReq = 2
-  MaxCode = 1
+  MaxCode = 2
   MaxAT = 2
   MaxDev = 0
   MaxSteps = 99
